@@ -224,6 +224,7 @@ def job_row(i, tier, seed):
     dm0 = E.pre_dmem()
     extra = []
     skip_cv = False
+    intercepts, only_fields, late, spec = {}, None, None, None
     over_acc = lambda ty, idx, fn: alu.acc_store(lambda n_: fn(alu.ACC[n_]), idx, forms.ENUMS[ty], R)
 
     ab = Abstract(E)
@@ -310,6 +311,42 @@ def job_row(i, tier, seed):
         if types == ('Ax',):
             sx = z3.SignExt(48, spec['sv'])
             spec = alu.acc_store(lambda n_: {**spec, alu.ACC[n_]: sx}, F(0), forms.ENUMS['Ax'], R)
+    elif (nm == 'movs' and types == ('Rn', 'StepZIDS', 'Ab')) or (nm == 'exp' and types in (('Rn', 'StepZIDS'), ('Rn', 'StepZIDS', 'Ax'))) or nm == 'norm':
+        # [Rn] operand forms: the stepper returns a fresh pre-modified value (C10 decides the stepping), the operand is the
+        # data word at the address read; accumulators, flags and sv are compared, the address registers and r-zero flag are not
+        only_fields = c03.ACCFLAGS + ('sv',)
+        stepfn = [n for n in E.mod.funcs if 'Interpreter11RnAndModifyE' in n]
+        if len(stepfn) != 1:
+            ck.engine_errors.append('RnAndModify symbol not found')
+            return ck.export()
+        RNOLD = z3.BitVec('RNOLD_0', 16)
+
+        def stepper(e_, st, a):
+            st.log.append(('STEP', list(st.pc), a[1], a[2]))
+            return st, RNOLD
+        intercepts[stepfn[0]] = stepper
+        if nm == 'movs':
+            extra = [small_sv(R['sv'])]
+            late = lambda val: over_acc('Ab', F(2), lambda acc: shift_model(R, z3.SignExt(48, val), R['sv'], acc))
+        elif nm == 'exp':
+            def late(val):
+                sp = dict(R)
+                sp['sv'] = exp_model(z3.SignExt(32, z3.Concat(val, z3.BitVecVal(0, 16))))
+                if len(types) == 3:
+                    sx = z3.SignExt(48, sp['sv'])
+                    sp = alu.acc_store(lambda n_: {**sp, alu.ACC[n_]: sx}, F(2), forms.ENUMS['Ax'], R)
+                return sp
+        else:
+            # norm: one normalisation step while the accumulator is not yet normalised (fn == 0): overflow iff bits 39 and 38
+            # differ, carry = the bit shifted out, value <<= 1, flags of the new value; no memory operand
+            def f(acc):
+                a_ = R[acc]
+                ov = z3.Extract(39, 39, a_) != z3.Extract(38, 38, a_)
+                res = alu.SX40(alu.B40(a_ << 1))
+                R2 = alu.with_cv(R, z3.Extract(39, 39, a_) == 1, ov)
+                R2 = alu.write_acc_nosat(R2, acc, res)
+                return {k: (R2[k] if R2[k] is R[k] else z3.If(R['fn'] == 0, R2[k], R[k])) for k in R}
+            spec = over_acc('Ax', F(0), f)
     elif nm == 'mov_p1_to':
         spec = over_acc('Ab', F(0), lambda acc: alu.write_acc_sat(R, acc, ab.PB[1]))
     elif nm in ('clrp0', 'clrp1', 'clrp'):
@@ -320,19 +357,39 @@ def job_row(i, tier, seed):
     else:
         return ck.export()
     extra = extra + ab.axioms
+    ex_ = E.base()[0]
+    ex_.intercepts.update(intercepts)
     try:
         with ab:
             r = E.run_row(i, o, e, A + extra)
     except (Abort, UnwindBound) as x:
         ck.inconclusive.append('row %d %s: %r' % (i, nm, x))
         return ck.export()
+    finally:
+        for n_ in intercepts:
+            ex_.intercepts.pop(n_, None)
     ck.ninstr += r['ninstr']
     ck.nstates += 1
     if r['st'] is None:
         ck.prove('Wiring[%d %s]' % (i, nm), A + extra, z3.BoolVal(False), vars={'o': o, 'e': e})
         return ck.export()
     post = E.post_regs(r['st'])
+    pre_goals = []
+    if late is not None:
+        reads = [ev for ev in r['st'].log if ev[0] == 'R']
+        if len(reads) != 1:
+            ck.prove('Wiring[%d %s%s]' % (i, nm, types), A + extra, z3.BoolVal(False), vars={'o': o, 'e': e})
+            return ck.export()
+        pre_goals.append(z3.BoolVal('RNOLD_0' in str(reads[0][2])))
+        spec = late(z3.Select(dm0, reads[0][2]))
+    if intercepts:
+        steps = [ev for ev in r['st'].log if ev[0] == 'STEP']
+        pre_goals.append(z3.BoolVal(len(steps) == 1))
+    if only_fields is not None:
+        post = {f: post[f] for f in only_fields}
+        spec = {f: spec[f] for f in only_fields}
     g, names = c03.diff_goal(post, spec, R)
+    g += pre_goals
     g.append(E.post_dmem(r['st']) == dm0)
     g.append(z3.Not(kit.exit_cond(type('X', (), {'exits': r['exits']})())))
     # the abstracted calls happened exactly as the form demands: product reads see the pre-state product registers, and the
@@ -352,7 +409,7 @@ def job_row(i, tier, seed):
     vars_.update({'exp.' + f: spec.get(f, R[f]) for f in names})
     vars_['exp.dmem_unchanged'] = z3.BoolVal(True)
     vars_.update(interp.read_vars(E, r['st']))
-    ck.prove('Wiring[%d %s%s]' % (i, nm, types), A + extra, z3.And(*g), vars=vars_, replay=(interp.spec_replayer(E, i, [n_ for n_ in names if not n_.startswith('p')]) if not [ev for ev in r['st'].log if ev[0] in ('MUL', 'P2B')] else None),
+    ck.prove('Wiring[%d %s%s]' % (i, nm, types), A + extra, z3.And(*g), vars=vars_, replay=(interp.spec_replayer(E, i, [n_ for n_ in names if not n_.startswith('p')]) if not intercepts and not [ev for ev in r['st'].log if ev[0] in ('MUL', 'P2B')] else None),
              sample='row %d %s%s: post-state == model(pre-state) on all register fields (previous product accumulated before the new multiplication is launched / exact shift / exponent), memory unchanged' % (i, nm, types))
     return ck.export()
 
@@ -669,10 +726,10 @@ def run(tier, seed):
                        'ProductSum: result, z/m/e/n flags and saturation are checked against the model; its combined carry/overflow flags are covered by C01 only',
                        'compositional cut: inside ProductSum and the instruction rows, ProductToBus40 is a fresh sign-extended 40-bit value per unit (proved to be read on the pre-state product registers) and DoMultiplication writes fresh product words (proved to be launched with the unit/sign selection/factors the form demands); both functions are proved against the exact-product model as kernels, half-word mode by exhaustive case split',
                        'ProductWiring[row] (app, mov_sv_app, every mma* form, sqr*, mul/mul_y0/msu/msusu/mac1 with memory or register operands): event-level - ProductSum is called once, on the pre-state product registers (mov_sv_app: after sv was loaded from the word read), with the base / add-sub / align configuration and destination the form declares; each multiplier is then launched exactly once with the declared sign selection and with the factors the form routes to it (pre-state x/y, swapped x, the n-th memory word read, the second word, halves of the source accumulator); nothing after the sum touches its accumulator or the flags. What a form declares is read from the frozen reference decoder.h (same name and opcode pattern). Address generation (RnAndModify / OffsetAddress) returns fresh values there (C10 decides it); the value of a Register source operand in mul_y0(Register) is left to C01',
-                       'norm, movs(Rn), movs(Register), movsi, exp(Rn), exp(Register), cbs, the vtr forms: covered by C01 and C10 rather than this model']
+                       'movs [Rn], exp [Rn] (2 forms), norm: the stepper is abstracted to a fresh pre-modified value (C10), the operand is the data word at the address read; accumulators, flags and sv are compared against the shifter / exponent / normalisation-step model', 'movs(Register), movsi, exp(Register), cbs, the vtr forms: covered by C01 rather than this model']
     ck.bounds += ['no bound on values; Exp loop unwinding 60 (39 iterations needed, bound checked)', 'quick tier: ProductSum kernel on destinations a0 and b1 (thorough: all four)']
     ck.stubs += E.tabulated
-    fam = ('mul_y0_r6', 'mul_y0', 'mpyi', 'mac_x1to0', 'shfc', 'shfi', 'movs_r6_to', 'movs', 'moda4', 'moda3', 'exp', 'exp_r6', 'mov_p1_to', 'clrp0', 'clrp1', 'clrp')
+    fam = ('mul_y0_r6', 'mul_y0', 'mpyi', 'mac_x1to0', 'shfc', 'shfi', 'movs_r6_to', 'movs', 'moda4', 'moda3', 'exp', 'exp_r6', 'mov_p1_to', 'clrp0', 'clrp1', 'clrp', 'norm')
     rows = [r['i'] for r in E.rows if r['name'] in fam]
     kj = [(job_mul, (u, tier, seed)) for u in (0, 1)] + [(job_prodsum, (b_, tier, seed)) for b_ in range(4)] + [(job_shift, (an, tier, seed)) for an in REGN]
     pw = [r['i'] for r in E.rows if r['name'] in PW_SUM + PW_MUL]
